@@ -516,6 +516,40 @@ def d_delegate( ctx ):
             res.ok( src, f, '%s splits dotted keys with _resolve' % f.name )
         else:
             res.bad( src, f, f.name, 'dotted keys must be split by _resolve in every accessor' )
+    # every failure to resolve a path is a KeyError: membership, get() and hasattr() catch exactly that.  The index expressions of 'name[expr]'
+    # keys are eval()-ed, which can raise NameError / IndexError / TypeError / SyntaxError: inside __getitem__ each eval is wrapped by a try
+    # that turns those into KeyError
+    gi_ = src.get( 'dotdict_base.__getitem__' )
+    evals = [ c_ for c_ in ast.walk( gi_ ) if is_call_to( c_, 'eval' ) ]
+    if not evals:
+        raise AnalysisError( 'dotdict_base.__getitem__: eval of an index expression not found' )
+    for c_ in evals:
+        trs = [ a_ for a_ in src.ancestors( c_ ) if isinstance( a_, ast.Try ) and any( c_ is x_ for b_ in a_.body for x_ in ast.walk( b_ )) ]
+        conv = [ h_ for t_ in trs for h_ in t_.handlers if ( h_.type is None or dotted( h_.type ) in ( 'Exception', 'BaseException' ))
+                 and any( isinstance( r_, ast.Raise ) and r_.exc is not None and is_call_to( r_.exc, 'KeyError' ) for r_ in ast.walk( h_ )) ]
+        if conv:
+            res.ok( src, c_, '__getitem__: a failing index expression is reported as KeyError' )
+        else:
+            res.bad( src, c_, '__getitem__: %s may raise NameError / IndexError / TypeError' % norm_text( c_ )[:50],
+                     'membership, get() and hasattr() only catch KeyError: "x[0]" in d raises NameError and d.get( "m[9]", default ) raises IndexError instead of answering False / default - membership no longer agrees with lookup' )
+    # pop( key, default ) never raises for a missing path
+    pp_ = src.get( 'dotdict_base.pop' )
+    first = [ c_ for c_ in ast.walk( pp_ ) if isinstance( c_, ast.Call ) and isinstance( c_.func, ast.Attribute ) and c_.func.attr == '__getitem__' and is_call_to( c_.func.value, 'super' ) ]
+    if first:
+        trs = [ a_ for a_ in src.ancestors( first[0] ) if isinstance( a_, ast.Try ) and any( first[0] is x_ for b_ in a_.body for x_ in ast.walk( b_ )) and any( dotted( h_.type ) in ( 'KeyError', 'Exception' ) or h_.type is None for h_ in a_.handlers ) ]
+        if trs:
+            res.ok( src, first[0], 'pop: a missing first level honours the supplied default' )
+        else:
+            res.bad( src, first[0], 'pop: %s outside any KeyError handler' % norm_text( first[0] )[:60], 'd.pop( "zz.y", None ) raises KeyError although a default was supplied (dict.pop semantics; del and lookup of the same path agree that it is absent)' )
+    # __copy__: a list of levels is copied level by level ( copy.copy of a list shares its elements )
+    cp_ = src.get( 'dotdict_base.__copy__' )
+    handles_lists = any( is_call_to( c_, 'isinstance' ) and len( c_.args ) == 2 and 'list' in names_in( c_.args[1] ) for c_ in ast.walk( cp_ )) \
+        and any( isinstance( n_, ( ast.ListComp, ast.GeneratorExp )) and any( is_call_to( c_, 'copy.copy', 'copy.deepcopy' ) for c_ in ast.walk( n_.elt )) and n_ is not cp_.body[-1].value.args[0]
+                 for n_ in ast.walk( cp_ ) if isinstance( cp_.body[-1], ast.Return ) and isinstance( cp_.body[-1].value, ast.Call ) and cp_.body[-1].value.args )
+    if handles_lists or any( is_call_to( c_, 'copy.deepcopy' ) for c_ in ast.walk( cp_ )):
+        res.ok( src, cp_, '__copy__ copies the levels held in lists, too' )
+    else:
+        res.bad( src, cp_, '__copy__: values are copied with copy.copy( v ) only', 'a list of levels ( d.item = [ {..}, {..} ] ) is shallow-copied, so the copy shares every element level with the original: c["item[0].x"] = 2 changes d as well - copies are not structurally independent' )
     # setdefault: "absent" is decided by membership, never by the stored value being None (None is a value)
     sd = src.get( 'dotdict_base.setdefault' )
     KEY = sd.args.args[1].arg
